@@ -54,6 +54,7 @@ ALLOCS = ALLOCS_LIST
 EXTERNAL = EXTERNAL_LIST
 
 CODEC = "<common::alccodec::%s as common::alccodec::AlcCodec>"
+OR_T = "receiver::objectreceiver::ObjectReceiver"
 ALCPKT_INV = [
     # AlcPkt { data, data_alc_header_offset = lct.len, data_payload_offset = lct.len + payload-id length } with
     # data_payload_offset <= data.len(): established by the guard in parse_alc_pkt, preserved by to_cache()/to_pkt() copies
@@ -78,21 +79,21 @@ for nm in ("cci", "tsi", "toi"):
     pass
 site("common::lct::parse_lct_header|copy_from_slice|<impl [T]>::copy_from_slice(&IndexMut<I> for [T; N]>::index_mut(&cci, RangeFrom::RangeFrom{start: ((16 - cci_len) as usize)}), &Index<I> for [T]>::index(&data, …",
      "both slices have length cci_len: dst = cci[16 - cci_len ..] of a [u8; 16], src = data[4 .. 4 + cci_len] (affine equality outside the difference-fact domain); "
-     "cci_len <= 16 is guarded", [("guard", "common::lct::parse_lct_header", r"cci_len <= 16")])
+     "cci_len <= 16 is guarded", [("dom", r"cci_len <= 16")])
 site("common::lct::parse_lct_header|copy_from_slice|<impl [T]>::copy_from_slice(&IndexMut<I> for [T; N]>::index_mut(&tsi, RangeFrom::RangeFrom{start: ((8 - tsi_len) as usize)}), &Index<I> for [T]>::index(&data, R…",
      "both slices have length tsi_len: dst = tsi[8 - tsi_len ..] of a [u8; 8], src = data[cci_to .. cci_to + tsi_len]; tsi_len <= 8 is guarded",
-     [("guard", "common::lct::parse_lct_header", r"tsi_len <= 8")])
+     [("dom", r"tsi_len <= 8")])
 site("common::lct::parse_lct_header|copy_from_slice|<impl [T]>::copy_from_slice(&IndexMut<I> for [T; N]>::index_mut(&toi, RangeFrom::RangeFrom{start: ((16 - toi_len) as usize)}), &Index<I> for [T]>::index(&data, …",
      "both slices have length toi_len: dst = toi[16 - toi_len ..] of a [u8; 16], src = data[tsi_to .. tsi_to + toi_len]; toi_len <= 16 is guarded",
-     [("guard", "common::lct::parse_lct_header", r"toi_len <= 16")])
+     [("dom", r"toi_len <= 16")])
 site("common::alc::parse_alc_pkt|Overflow(Add)|Overflow(Add)(fec_payload_id_block_length, lct_header.len)",
      "lct_header.len <= 1020 (field invariant R0) and the payload-id length is the constant 4 or 8 returned by the codec table", [], None)
 site("common::alc::parse_sct|index|Index<I> for [T]>::index(&ext, Range::Range{start: 4, end: 8})",
      "ext.len() == 4 * (1 + sct_hi + sct_low + ert + slc) is checked first and sct_hi == 1 on this path, so len >= 8",
-     [("guard", "common::alc::parse_sct", r"len\(ext\) == expected_len|expected_len"), ("guard", "common::alc::parse_sct", r"sct_hi == 0")])
+     [("dom", r"len\(&?ext\) == expected_len"), ("dom", r"!sct_hi == 0")])
 site("common::alc::parse_sct|index|Index<I> for [T]>::index(&ext, Range::Range{start: 8, end: 12})",
      "same length check; this arm is taken only when sct_low == 1 and sct_hi == 1, so len >= 12",
-     [("guard", "common::alc::parse_sct", r"expected_len"), ("guard", "common::alc::parse_sct", r"sct_low == 1")])
+     [("dom", r"len\(&?ext\) == expected_len"), ("dom", r"!sct_hi == 0"), ("dom", r"sct_low == 1")])
 
 # ---- counters that grow by one per event ----------------------------------------------------------------------------------------
 ONE_PER_EVENT = "incremented once per received symbol / block / FDT: 2^32..2^64 events are out of reach of any session"
@@ -104,7 +105,7 @@ site("<fec::rscodec::RSGalois8Codec as fec::FecDecoder>::push_symbol|Overflow(Ad
      "bounded by decode_shards.len() <= 256 (same guard)")
 site("receiver::blockwriter::BlockWriter::write|Overflow(Add)|Overflow(Add)(self.sbn, 1)",
      "one increment per block written in order; sbn equals the packet SBN (u32) on this path and the object ends before 2^32 blocks "
-     "(nb_blocks of the partition; out-of-range SBNs are skipped by push_to_block2)", [("guard", "receiver::blockwriter::BlockWriter::write", r"self\.sbn == sbn")])
+     "(nb_blocks of the partition; out-of-range SBNs are skipped by push_to_block2)", [("dom", r"self\.sbn == sbn")])
 site("receiver::objectreceiver::ObjectReceiver::push_to_block2|Overflow(Add)|Overflow(Add)(self.nb_allocated_blocks, 1)", ONE_PER_EVENT)
 site("receiver::objectreceiver::ObjectReceiver::write_blocks|Overflow(Add)|Overflow(Add)(sbn, 1)", "sbn starts from a u32 and advances once per written block")
 site("receiver::objectreceiver::ObjectReceiver::write_blocks|Overflow(Add)|Overflow(Add)(self.blocks_offset, 1)", ONE_PER_EVENT)
@@ -122,13 +123,13 @@ site("receiver::receiver::Receiver::gc_object_completed|Overflow(Sub)|Overflow(S
 # ---- ObjectReceiver block bookkeeping ----------------------------------------------------------------------------------------------
 site("receiver::objectreceiver::ObjectReceiver::push_to_block2|Overflow(Sub)|Overflow(Sub)((payload_id.sbn as usize), self.blocks_offset)",
      "dominated by the early return `payload_id.sbn < self.blocks_offset as u32` (blocks_offset < 2^32 because it counts written blocks whose SBN is a u32)",
-     [("guard", "receiver::objectreceiver::ObjectReceiver::push_to_block2", r"\(self\.blocks_offset as u32\) <= payload_id\.sbn")])
+     [("dom", r"\(self\.blocks_offset as u32\) <= payload_id\.sbn")])
 site("receiver::objectreceiver::ObjectReceiver::push_to_block2|index|VecDeque::index_mut(&self.blocks, block_offset)",
      "blocks was just resized to block_offset + 1 when block_offset >= blocks.len() (resize_with on the guarded path), otherwise block_offset < blocks.len()",
      [("guard", "receiver::objectreceiver::ObjectReceiver::push_to_block2", r"block_offset < VecDeque::len\(&self\.blocks\)|VecDeque::len\(&self\.blocks\) <= \(?block_offset")])
 site("receiver::objectreceiver::ObjectReceiver::write_blocks|index|VecDeque::index_mut(&self.blocks, block_offset)",
      "loop condition: sbn >= blocks_offset && sbn - blocks_offset < blocks.len(), block_offset = sbn - blocks_offset",
-     [("guard", "receiver::objectreceiver::ObjectReceiver::write_blocks", r"\(sbn - self\.blocks_offset\) < VecDeque::len\(&self\.blocks\)")])
+     [("dom", r"\(sbn - self\.blocks_offset\) < VecDeque::len\(&self\.blocks\)")])
 site("receiver::objectreceiver::ObjectReceiver::push_to_block2|Overflow(Add)|Overflow(Add)(self.total_allocated_blocks_size, block_length)",
      "block_length < 2^48 (u32 symbols x u16 symbol length, or partition::block_length <= a_large * e) and at most 2 * 2048 + 1 blocks are tracked: the sum stays below 2^61", [], 0)
 site("receiver::objectreceiver::ObjectReceiver::push_to_block2|Overflow(Add)|Overflow(Add)(self.total_allocated_blocks_size, block_length)",
@@ -139,20 +140,29 @@ func("common::partition::block_length", {"Overflow(Mul)": 7, "Overflow(Sub)": 4}
      "called only from push_to_block2 with the triple computed by block_partitioning(b, l, e) from the same l and e, and (fix F6) with sbn < nb_blocks. "
      "a_large <= b < 2^32 and e < 2^16, so the block sizes are < 2^48; nb_a_large * a_large <= t - a_small and t * e < l + e, so every product is <= l + e < 2^64 and every "
      "subtraction l - k * size has k * size <= l (the blocks before `sbn` are part of the object)",
-     [("guard", "receiver::objectreceiver::ObjectReceiver::push_to_block2", r"self\.nb_blocks <= \(payload_id\.sbn as u64\)|\(payload_id\.sbn as u64\) < self\.nb_blocks")])
+     [("site_dom_assume", "receiver::objectreceiver::ObjectReceiver::push_to_block2", r"^common::partition::block_length$", r"\(payload_id\.sbn as u64\) < self\.nb_blocks",
+       r"payload_id\.source_block_length is None"),
+      # the triple stays consistent with l: the transfer length, the OTI and the partition are write-once
+      ("field_assign_dom", OR_T, "transfer_length", [r"self\.transfer_length is None", r"self\.oti is None"]),
+      ("field_assign_dom", OR_T, "oti", [r"self\.oti is None"]),
+      ("field_assigned_only_in", OR_T, "a_large", [r"ObjectReceiver::init_blocks_partitioning$"]),
+      ("field_assigned_only_in", OR_T, "a_small", [r"ObjectReceiver::init_blocks_partitioning$"]),
+      ("field_assigned_only_in", OR_T, "nb_a_large", [r"ObjectReceiver::init_blocks_partitioning$"]),
+      ("field_assigned_only_in", OR_T, "nb_blocks", [r"ObjectReceiver::init_blocks_partitioning$"]),
+      ("site_dom", "receiver::objectreceiver::ObjectReceiver::init_blocks_partitioning", r"^common::partition::block_partitioning$", r"nb_block\(&self\) <= 0")])
 func("common::partition::block_partitioning", {"Overflow(Mul)": 1, "Overflow(Sub)": 1},
      "a_small = floor(t / n), hence a_small * n <= t: neither the product nor t - a_small * n can overflow (div_floor property, not expressible as an interval)")
 
 # ---- decoders -------------------------------------------------------------------------------------------------------------------------
 site("<fec::nocode::NoCodeDecoder as fec::FecDecoder>::decode|unwrap|Option::unwrap(Option::as_ref(&shard))",
      "decode() runs the loop only after can_decode(): nb_symbols == shards.len(), and nb_symbols counts distinct filled slots (C02.R3), so every shard is Some",
-     [("guard", "<fec::nocode::NoCodeDecoder as fec::FecDecoder>::decode", r"can_decode")])
+     [("dom", r"can_decode")])
 site("<fec::rscodec::RSGalois8Codec as fec::FecDecoder>::decode|index|Vec::index(&self.decode_shards, i)",
      "i < params.nb_source_symbols <= decode_shards.len() = nb_source_symbols + nb_parity_symbols (constructor)", [], 0)
 site("<fec::rscodec::RSGalois8Codec as fec::FecDecoder>::decode|index|Vec::index(&self.decode_shards, i)", "same bound", [], 1)
 site("<fec::rscodec::RSGalois8Codec as fec::FecDecoder>::decode|unwrap|Option::unwrap(Option::as_ref(&Vec::index(&self.decode_shards, i)))",
      "dominated by the `is_none() -> return false` test on the same slot in the same iteration",
-     [("guard", "<fec::rscodec::RSGalois8Codec as fec::FecDecoder>::decode", r"decode_shards.* is (Some|None)")])
+     [("dom", r"decode_shards.* is Some")])
 site("fec::rscodec::RSGalois8Codec::new|Overflow(Add)|Overflow(Add)(nb_source_symbols, nb_parity_symbols)",
      "both arguments are u32 / u8-derived values widened to usize by BlockDecoder::init (source_block_length u32, max_number_of_parity_symbols u32); "
      "ReedSolomon::new has already rejected sums above 256")
@@ -191,9 +201,9 @@ func("tools::ringbuffer::RingBuffer::write_size", {"Overflow(Add)": 1, "Overflow
 
 # ---- time -------------------------------------------------------------------------------------------------------------------------------
 site("receiver::fdtreceiver::FdtReceiver::push|unwrap|Result::unwrap(SystemTime::duration_since(&now, res))",
-     "on the edge `res < now`: duration_since(later, earlier) is Ok (ordered values, C19.R3 checks the operands)", [("guard", "receiver::fdtreceiver::FdtReceiver::push", r"res < now")])
+     "on the edge `res < now`: duration_since(later, earlier) is Ok (ordered values, C19.R3 checks the operands)", [("dom", r"res < now")])
 site("receiver::fdtreceiver::FdtReceiver::push|unwrap|Result::unwrap(SystemTime::duration_since(&res, now))",
-     "on the edge `now <= res`", [("guard", "receiver::fdtreceiver::FdtReceiver::push", r"now <= res|res < now")])
+     "on the edge `now <= res`", [("dom", r"now <= res")])
 site("receiver::fdtreceiver::FdtReceiver::get_server_time|op-trait|SystemTime::sub(now, offset)",
      "offset = now' - sct with sct >= 1970 (ntp_to_system_time rejects earlier values): now - offset stays within the i64-second range of SystemTime")
 site("receiver::fdtreceiver::FdtReceiver::get_server_time|op-trait|SystemTime::add(now, offset)",
@@ -203,7 +213,7 @@ site("tools::ntp_to_system_time|op-trait|SystemTime::add(std::time::SystemTime::
 
 # ---- Receiver ------------------------------------------------------------------------------------------------------------------------------
 site("receiver::receiver::Receiver::gc_object_error|unwrap|Option::unwrap(BTreeSet::pop_first(&self.objects_error))",
-     "loop condition len() > max_objects_error >= 0: the set is not empty", [("guard", "receiver::receiver::Receiver::gc_object_error", r"max_objects_error < BTreeSet::len")])
+     "loop condition len() > max_objects_error >= 0: the set is not empty", [("dom", r"max_objects_error < BTreeSet::len")])
 site("receiver::receiver::Receiver::push_fdt_obj|unwrap|Option::unwrap(FdtReceiver::fdt_meta(&fdt_current~2))",
      "reached only when the instance state is Complete, which FdtWriter::complete sets from ObjectReceiver::complete(); FdtReceiver::push then sees obj.state == Completed "
      "in the same call and stores meta = Some(create_meta()) before the state is read",
@@ -212,11 +222,11 @@ site("receiver::receiver::Receiver::push_fdt_obj|unwrap|Option::unwrap(FdtReceiv
 # ---- writers -----------------------------------------------------------------------------------------------------------------------------------
 FSW = "<receiver::writer::objectwriterfs::ObjectWriterFS as receiver::writer::ObjectWriter>"
 site(FSW + "::write|unwrap|Option::unwrap(Option::as_mut(&RefMut::deref_mut(&inner).writer))", "dominated by `inner.writer.is_none() -> return`",
-     [("guard", FSW + "::write", r"writer is (Some|None)")])
+     [("dom", r"writer is Some")])
 site(FSW + "::complete|unwrap|Option::unwrap(Option::as_mut(&RefMut::deref_mut(&inner).writer))", "dominated by `inner.writer.is_none() -> return`",
-     [("guard", FSW + "::complete", r"writer is (Some|None)")])
+     [("dom", r"writer is Some")])
 site(FSW + "::error|unwrap|Option::unwrap(Option::as_ref(&RefMut::deref(&inner).destination))", "dominated by `inner.destination.is_some()`",
-     [("guard", FSW + "::error", r"destination is (Some|None)")])
+     [("dom", r"destination is Some")])
 
 # =================================================================================================================================================
 alloc("receiver::objectreceiver::ObjectReceiver::init_blocks_partitioning|alloc|VecDeque::resize_with(&self.blocks, cmp::min((nb_blocks as usize), 2048), fn BlockDecoder::new)",
@@ -265,7 +275,7 @@ dbg("receiver::blockdecoder::BlockDecoder::push", "self.initialized",
     "push_to_block2 calls push() only after `if !block.initialized { block.init(..)? }` succeeded", [("guard", "receiver::objectreceiver::ObjectReceiver::push_to_block2", r"initialized")])
 dbg("receiver::blockdecoder::BlockDecoder::push", "self.decoder.is_some()",
     "init() stores a decoder on every Ok path (fix F5 returns Err for RS GF(2^m)); deallocate() is only applied to completed blocks and push() returns first for those",
-    [("guard", "receiver::blockdecoder::BlockDecoder::push", r"self\.completed")])
+    [("dom", r"!self\.completed")])
 dbg("receiver::blockwriter::BlockWriter::init_decoder", "self.decoder.is_none()", "only called under `self.decoder.is_none()` in decode_write_pkt",
     [("guard", "receiver::blockwriter::BlockWriter::decode_write_pkt", r"self\.decoder is (None|Some)")])
 dbg("receiver::blockwriter::BlockWriter::write", "block.completed", "write_blocks breaks out of its loop on `!block.completed` before calling write()",
@@ -278,9 +288,9 @@ dbg(OR_ + "attach_fdt", "self.toi != lct::TOI_FDT", "attach_fdt is only called o
 dbg(OR_ + "attach_fdt", "self.transfer_length.is_none()",
     "transfer_length is assigned only together with an OTI (set_oti_from_pkt) or in attach_fdt itself, which runs its body once per object (fdt_instance_id guard): with oti None it is still None")
 dbg(OR_ + "init_blocks_partitioning", "self.blocks.is_empty()", "dominated by the early return `nb_block() > 0`, and nb_block() = blocks_offset + blocks.len()",
-    [("guard", OR_ + "init_blocks_partitioning", r"nb_block")])
+    [("dom", r"nb_block\(&self\) <= 0")])
 dbg(OR_ + "init_object_writer", "self.block_writer.is_none()", "block_writer is only assigned here, after the `object_writer.is_some() -> return` guard: the body runs once",
-    [("guard", OR_ + "init_object_writer", r"object_writer is (Some|None)")])
+    [("dom", r"self\.object_writer is None")])
 dbg(OR_ + "push_to_block2", "self.oti.is_some()", "push() caches the packet and returns when oti is None; push_from_cache replays only once blocks exist, i.e. after the partition was computed from oti",
     [("guard", OR_ + "push", r"self\.oti is (Some|None)")])
 dbg(OR_ + "push_to_block2", "self.transfer_length.is_some()",
@@ -321,7 +331,8 @@ ext("*|ext|EncodingPacket::new", "constructor")
 ext("*|ext|SourceBlockDecoder::decode",
     "raptorq: slices the symbol with the announced symbol size and divides by the number of sub-blocks: symbol length and N >= 1 validated (fix F27). "
     "raptor_code: slices decoded symbols with ceil(block_length / K): shorter symbols are padded first (fix F28)",
-    [("guard", "<fec::raptorq::RaptorQDecoder as fec::FecDecoder>::push_symbol", r"encoding_symbol_length"), ("guard", "<fec::raptor::RaptorDecoder as fec::FecDecoder>::push_symbol", r"symbol_size")])
+    [("site_dom", "<fec::raptorq::RaptorQDecoder as fec::FecDecoder>::push_symbol", r"SourceBlockDecoder::decode$", r"len\(&encoding_symbol\) == self\.encoding_symbol_length"),
+     ("site_dom", "<fec::raptor::RaptorDecoder as fec::FecDecoder>::push_symbol", r"SourceBlockDecoder::push_encoding_symbol$", r"symbol_size")])
 ext("*|ext|SourceBlockDecoder::push_encoding_symbol", "raptor_code: stores the symbol (xor resizes rows to the longest)")
 ext("*|ext|SourceBlockDecoder::fully_specified", "raptor_code: rank test")
 
